@@ -14,8 +14,9 @@ import holopy.core.prior as pr
 from holopy.core.prior import Uniform, Gaussian, BoundedGaussian, TransformedPrior, ComplexPrior
 
 ID = "C14"
-LEAN_MODULES = ["HoloProps.C14", "HoloProps.C14Closure"]
-MODEL_MODULES = ["HoloModel.Prior"]
+LEAN_MODULES = ["HoloProps.C14", "HoloProps.C14Closure", "HoloProps.C14Gen"]
+MODEL_MODULES = ["HoloModel.Prior", "HoloModel.ExtArith", "HoloGen.PyPrior"]
+GEN_DEPS = ["PyPrior"]
 NOT_PROVED = [
     "'samples follow the declared distribution' is a statement about NumPy's generator: KS tests in the search only",
     "NumPy ufuncs applied to priors (np.sqrt(p), np.maximum(p, q)): covered by the search, not by the operator-algebra model",
